@@ -99,6 +99,8 @@ def run(cmd, **kw):
     return subprocess.run(cmd, stdout=subprocess.PIPE, stderr=subprocess.STDOUT, **kw)
 
 
+mutant('C19', 'index-cached-per-url', DS, "        with urlopen(index_name) as index_url:\n            index_fields = list(PackageFile(index_name, index_url))",
+       "        _c = update_file.__dict__.setdefault('_index_cache', {})\n        if index_name not in _c:\n            with urlopen(index_name) as index_url:\n                _c[index_name] = list(PackageFile(index_name, index_url))\n        index_fields = _c[index_name]")
 def main(argv):
     want = set(a.upper() for a in argv)
     results = []
